@@ -224,10 +224,34 @@ def _embed_untyped(ctx, v, r, path, problems):
             problems.append("%s: member %r = %r invented (not in input, not a default/not-passed placeholder)" % (path, k, val))
 
 
-def check(schema, value, result, element=None):
+def check(schema, value, result, element=None, parsed=True):
     """-> (problems, collision_flag).  `element` (the real element tree) sharpens the oracle where the builder of a
     member is unambiguous: Number => float, model class => instance of that class."""
     ctx = Ctx(schema)
     problems = []
     embed(ctx, value, result, "$", problems, element)
+    # independent of what the parsed model says about itself: every name the SCHEMA declares under "properties" (top level,
+    # no patterns involved) must be readable under its Python attribute name
+    if parsed and isinstance(schema, dict) and isinstance(schema.get("properties"), dict) and isinstance(value, dict) and not schema.get("patternProperties"):
+        declared = [k for k in schema["properties"] if k in value]
+        names = {}
+        for k in schema["properties"]:
+            n = _parse_attribute_name(k)
+            while n in names.values():
+                n += "_"
+            names[k] = n
+        ambiguous = len(set(value) & set(names.values()) - set(schema["properties"])) > 0
+        for k in declared:
+            if ambiguous:
+                break
+            py = names[k]
+            try:
+                got = getattr(result, py) if isinstance(type(result), ObjectMeta) else result[py]
+            except Exception:
+                problems.append("$: the schema declares property %r but the result cannot be read under its Python name %r" % (k, py))
+                continue
+            trial = []
+            embed(ctx, value[k], got, "$.%s" % py, trial)
+            if trial:
+                problems.append("$: declared property %r read under %r gives %r, input was %r" % (k, py, got, value[k]))
     return problems, ctx.collision
